@@ -15,14 +15,23 @@ import trackgen
 ANSI = re.compile(r"\x1b\[[0-9;]*m")
 
 
-def run_cli(exe, workdir, src, args, draws=None):
+def run_cli(exe, workdir, src, args, draws=None, elsewhere=False):
+    """run the real CLI on `src`; with `elsewhere` the working directory is not the source's directory (the source is named by
+    its absolute path), which is how the tool is used from a project root"""
     p = os.path.join(workdir, "prog.bloch")
     with open(p, "w") as f:
         f.write(src)
     env = dict(os.environ, BLOCH_NO_UPDATE_CHECK="1", HOME=workdir)
     if draws:
         env["VERIF_DRAWS"] = draws
-    r = subprocess.run([exe, p] + args, cwd=workdir, env=env, stdout=subprocess.PIPE, stderr=subprocess.PIPE, text=True, timeout=120)
+    cwd = workdir
+    if elsewhere:
+        cwd = os.path.join(workdir, "elsewhere")
+        os.makedirs(cwd, exist_ok=True)
+    r = subprocess.run([exe, p] + args, cwd=cwd, env=env, stdout=subprocess.PIPE, stderr=subprocess.PIPE, text=True, timeout=120)
+    if elsewhere:
+        for fn in os.listdir(cwd):      # nothing may be written into the directory the tool was started from
+            os.remove(os.path.join(cwd, fn))
     qasm_file = ""
     qp = os.path.join(workdir, "prog.qasm")
     if os.path.exists(qp):
